@@ -311,7 +311,7 @@ def _run_meta(case):
                     idw=ctx.flag('idw'), mask=ctx.flag('mask'),
                     cov=ctx.flag('cov'), grad=ctx.choice('grad', [0, 1]),
                     shift=ctx.choice('shift', [0.0, 1e3, 1e7]),
-                    scale=ctx.choice('scale', [1.0, 3.0, 1e-10]))
+                    scale=ctx.choice('scale', [1.0, 3.0, 1e-10, 1e13]))
         ctx.stats.obligations += 1
         cnt['n'] += 1
         msg = _meta_check(scen)
